@@ -497,6 +497,73 @@ fn same_coordinate_on_two_pages(rep: &mut Report) {
     }
 }
 
+/// A page over the CALLER'S bytes (arbitrary header bytes 1..3, arbitrary padding, arbitrary unused bits) that is filled,
+/// cleared and drawn on: only bits of the pixel area change — the id, the other header bytes and the padding stay what the
+/// caller gave, for a borrowed buffer as for an owned one.
+fn fills_keep_what_is_not_pixels(rng: &mut Rng, rep: &mut Report) {
+    for (w, h) in [(1u32, 1u32), (7, 7), (90, 7), (112, 16), (40, 12), (30, 10), (9, 33), (3, 2), (0, 5), (5, 0)] {
+        let len = refs::padded_len(w, h);
+        let data_end = 4 + (w as usize) * refs::col_bytes(h);
+        for owned in [false, true] {
+            for round in 0..6usize {
+                let given = rng.bytes(len);
+                rep.case(Some(crate::util::fnv(&given) ^ round as u64));
+                let r = catch(std::panic::AssertUnwindSafe(|| -> Result<Vec<String>, String> {
+                    let mut p = if owned { Page::from_bytes(w, h, given.clone()) } else { Page::from_bytes(w, h, &given[..]) }.map_err(|e| e.to_string())?;
+                    let mut bad = vec![];
+                    let mut check = |p: &Page<'_>, after: &str, bad: &mut Vec<String>| {
+                        let b = p.as_bytes();
+                        if b.len() != len || b[..4.min(len)] != given[..4.min(len)] || b[data_end.min(len)..] != given[data_end.min(len)..] {
+                            bad.push(format!("after {}: header {:02x?} (given {:02x?}), bytes behind the pixel area {} (given {})", after, &b[..4.min(b.len())], &given[..4.min(len)], hex(&b[data_end.min(b.len())..]), hex(&given[data_end.min(len)..])));
+                        }
+                    };
+                    match round % 3 {
+                        0 => {
+                            p.set_all_pixels(false);
+                            check(&p, "set_all_pixels(false)", &mut bad);
+                            p.set_all_pixels(true);
+                            check(&p, "set_all_pixels(false), set_all_pixels(true)", &mut bad);
+                        }
+                        1 => {
+                            p.set_all_pixels(true);
+                            check(&p, "set_all_pixels(true)", &mut bad);
+                            if w > 0 && h > 0 {
+                                p.set_pixel(w - 1, h - 1, false);
+                                check(&p, "set_all_pixels(true), one pixel cleared", &mut bad);
+                            }
+                        }
+                        _ => {
+                            if w > 0 && h > 0 {
+                                p.set_pixel(0, 0, true);
+                                p.set_pixel(w - 1, h - 1, true);
+                                check(&p, "two pixels set", &mut bad);
+                            }
+                            let q = p.clone();
+                            p.set_all_pixels(false);
+                            check(&p, "clone taken, set_all_pixels(false)", &mut bad);
+                            check(&q, "set_all_pixels(false) on the page it was cloned from", &mut bad);
+                        }
+                    }
+                    Ok(bad)
+                }));
+                let sig = format!("fills|{}x{}|{}|{}", w, h, owned, round);
+                match r {
+                    Ok(Ok(bad)) => {
+                        if bad.is_empty() {
+                            rep.count("pages_over_the_callers_bytes_filled_and_drawn_on");
+                        }
+                        for b in bad.into_iter().take(2) {
+                            rep.violation(MON, "fill_changes_bytes_outside_the_pixel_area", &sig, format!("{}x{} page over the caller's bytes ({}): {}", w, h, if owned { "owned" } else { "borrowed" }, b), J::obj(vec![("workload", J::s("fills keep what is not pixels")), ("observed", J::s(b.clone()))]));
+                        }
+                    }
+                    Ok(Err(e)) => rep.violation(MON, "from_bytes_refuses_padded_length", &sig, format!("from_bytes({}x{}, {} bytes) refused: {}", w, h, len, e), J::obj(vec![("workload", J::s("fills keep what is not pixels"))])),
+                    Err(p) => rep.violation(MON, "panic", &sig, format!("{}x{} page over the caller's bytes: panic {} at {}", w, h, p.msg, short_loc(&p.loc)), J::obj(vec![("workload", J::s("fills keep what is not pixels"))])),
+                }
+            }
+        }
+    }
+}
+
 pub fn run(ctx: &Ctx) -> Outcome {
     let (bw, bh) = if ctx.quick() { (100u32, 48u32) } else { (256, 136) };
     let mut sizes: Vec<(u32, u32, bool)> = vec![]; // (w, h, sampled pixels only)
@@ -575,12 +642,14 @@ pub fn run(ctx: &Ctx) -> Outcome {
         crate::exitprobe::check("page", MON, &mut at_exit);
         concurrent_new_pages(if ctx.quick() { 96 } else { 2000 }, &mut at_exit);
         same_coordinate_on_two_pages(&mut at_exit);
+        fills_keep_what_is_not_pixels(&mut ctx.rng("fills", 0), &mut at_exit);
         crate::exitprobe::check_migration("page", MON, &mut at_exit);
         report.merge(at_exit);
     }
     let floors = vec![
         floor("new pages of 8 different sizes (1 byte .. 1 MiB) built at the same instant on 8 threads, every one checked", report.get("pages_built_while_other_threads_built_other_sizes") >= 8 * 96, report.get("pages_built_while_other_threads_built_other_sizes")),
         floor("the same coordinate set on two pages of different strides one right after the other (42 ordered pairs, every common pixel)", report.get("page_pairs_accessed_at_the_same_coordinates") == 42, report.get("page_pairs_accessed_at_the_same_coordinates")),
+        floor("pages over the caller's bytes (arbitrary header and padding, borrowed and owned) filled, cleared and drawn on: nothing outside the pixel area changes", report.get("pages_over_the_callers_bytes_filled_and_drawn_on") == 120, report.get("pages_over_the_callers_bytes_filled_and_drawn_on")),
         floor("every size of the box checked", report.get("box_sizes_done") == box_n as u64, report.get("box_sizes_done")),
         floor("11 real sizes and the tall / wide sizes checked pixel by pixel", report.get("real_sizes_done") == 11 + n_tall as u64, report.get("real_sizes_done")),
         floor("every large size checked", report.get("large_sizes_done") == n_large, report.get("large_sizes_done")),
